@@ -112,6 +112,21 @@ def opt(t):
     return r
 
 
+ALIASES = {}   # alias name -> aliased Rust type (emitted as `pub type`)
+
+
+def alias(t):
+    """The same type behind a `type` alias: the macros see a bare path, not `Option<..>` / `Vec<..>`."""
+    import copy
+    if t.lifetime or t.attrs:
+        return t
+    name = "Al" + "".join(c for c in t.rust.title() if c.isalnum())
+    ALIASES[name] = t.rust
+    a = copy.copy(t)
+    a.rust = name
+    return a
+
+
 def vec(t):
     if t.borrow:
         b = lambda x, is_b, t=t: (lambda inner: "for s in %s.iter() { %s }" % (x, inner) if inner else None)(t.borrow("s", is_b))
@@ -129,6 +144,8 @@ def bmap(t):
 
 def named(td):
     lt = "<'a>" if td.lifetime else ""
+    if td.params:
+        lt = "<%s>" % ", ".join(c for _, c in td.params)
     b = (lambda x, is_b: "%s.borrow_check(input)?;" % x) if td.lifetime else None
     return T(td.name + lt, 'Ty::Named("%s")' % td.name, "<%s%s as Case>::gen(rng, arena, &mut Presence::random(), depth + 1)" % (td.name, lt),
              lambda x: "%s.view()" % x, lifetime=td.lifetime, default=False, borrow=b)
@@ -137,8 +154,9 @@ def named(td):
 # --------------------------------------------------------------------------- type definitions
 
 class Field:
-    def __init__(self, name, index, t, borrow_attr=False, tag=None, skip=False):
+    def __init__(self, name, index, t, borrow_attr=False, tag=None, skip=False, decl=None):
         self.name, self.index, self.t, self.b, self.tag, self.skip = name, index, t, borrow_attr, tag, skip
+        self.decl = decl   # spelling in the type definition when it differs from the concrete type (a type parameter)
 
 
 class TypeDef:
@@ -153,6 +171,7 @@ class TypeDef:
         self.fields = []
         self.variants = []            # (name, index, shape, encoding-override, tag, fields)
         self.lifetime = False
+        self.params = []              # [(parameter name, concrete Rust type)] of a generic definition
 
     def eff_enc(self, override=None):
         e = override or self.encoding or "array"
@@ -176,8 +195,8 @@ def emit_fields_decl(fields, shape, pub="pub "):
     if shape == "unit":
         return ""
     if shape == "named":
-        return "{ " + " ".join("%s %s%s: %s," % (field_attr(f), pub, f.name, f.t.rust) for f in fields) + " }"
-    return "(" + " ".join("%s %s%s," % (field_attr(f), pub, f.t.rust) for f in fields) + ")"
+        return "{ " + " ".join("%s %s%s: %s," % (field_attr(f), pub, f.name, f.decl or f.t.rust) for f in fields) + " }"
+    return "(" + " ".join("%s %s%s," % (field_attr(f), pub, f.decl or f.t.rust) for f in fields) + ")"
 
 
 def schema_fields(fields):
@@ -194,6 +213,11 @@ def emit_field_schema(f):
 def emit_type(td):
     out = []
     lt = "<'a>" if td.lifetime else ""
+    dlt = lt          # generics of the definition
+    if td.params:
+        assert not td.lifetime
+        dlt = "<%s>" % ", ".join(p for p, _ in td.params)
+        lt = "<%s>" % ", ".join(c for _, c in td.params)
     attrs = []
     if td.encoding:
         attrs.append("#[cbor(%s)]" % td.encoding)
@@ -207,7 +231,7 @@ def emit_type(td):
     out += attrs
     if td.kind == "struct":
         decl = emit_fields_decl(td.fields, td.shape)
-        out.append("pub struct %s%s %s%s" % (td.name, lt, decl, ";" if td.shape != "named" else ""))
+        out.append("pub struct %s%s %s%s" % (td.name, dlt, decl, ";" if td.shape != "named" else ""))
     else:
         vs = []
         for (vn, vi, vshape, venc, vtag, vfields) in td.variants:
@@ -217,7 +241,7 @@ def emit_type(td):
             if vtag is not None:
                 va.append("#[cbor(tag(%d))]" % vtag)
             vs.append("%s %s %s," % (" ".join(va), vn, emit_fields_decl(vfields, vshape, pub="")))
-        out.append("pub enum %s%s { %s }" % (td.name, lt, " ".join(vs)))
+        out.append("pub enum %s%s { %s }" % (td.name, dlt, " ".join(vs)))
     # family
     out.append("pub struct %sFam; impl Fam for %sFam { const NAME: &'static str = \"%s\"; type T<'a> = %s%s; }" % (td.name, td.name, td.name, td.name, lt))
     # Case impl
@@ -325,6 +349,8 @@ def gen_leaf_type(rnd, pool_named, allow_borrow):
             t = bmap(base)
         else:
             t = opt(vec(base)) if not base.borrow else opt(base)
+        if rnd.random() < 0.12:
+            t = alias(t)
     return t
 
 
@@ -347,6 +373,24 @@ def gen_fields(rnd, n, pool_named, allow_borrow, allow_skip=True, allow_tag=True
         fields.append(Field("%ss" % prefix, None, t, skip=True))
     rnd.shuffle(fields)  # declaration order is independent of the index order
     return fields
+
+
+def make_generic(rnd, td):
+    """Turn up to two field types of a lifetime-free definition into type parameters
+    (instantiated with the concrete type the field had)."""
+    if td.kind == "struct":
+        groups = [td.fields]
+    else:
+        groups = [v[5] for v in td.variants]
+    if td.transparent or any(f.t.lifetime for g in groups for f in g):
+        return td
+    cands = [f for g in groups for f in g if not f.skip and not f.t.attrs and not f.t.rust.startswith("Al")]
+    rnd.shuffle(cands)
+    for k, f in enumerate(cands[:rnd.choice([1, 1, 2])]):
+        pname = "P%d" % k
+        f.decl = pname
+        td.params.append((pname, f.t.rust))
+    return td
 
 
 def finish(td):
@@ -379,6 +423,8 @@ def gen_struct(rnd, name, pool):
     td.tag = rnd.choice(TAGS) if rnd.random() < 0.25 else None
     n = rnd.choice([1, 2, 2, 3, 3, 4, 5, 6])
     td.fields = gen_fields(rnd, n, pool, True)
+    if rnd.random() < 0.12:
+        make_generic(rnd, td)
     return finish(td)
 
 
@@ -402,6 +448,8 @@ def gen_enum(rnd, name, pool):
         vtag = rnd.choice(TAGS) if rnd.random() < 0.2 else None
         fields = [] if shape == "unit" else gen_fields(rnd, rnd.choice([1, 2, 3]), pool, True, prefix="g")
         td.variants.append(("V%d" % k, idx[k], shape, venc, vtag, fields))
+    if rnd.random() < 0.12:
+        make_generic(rnd, td)
     return finish(td)
 
 
@@ -447,6 +495,24 @@ def special_types():
     td.kind = "enum"
     td.variants = [("A", 0, "named", None, None, [Field("x", 0, opt(U8)), Field("y", 1, opt(U8)), Field("z", 2, opt(U8))]), ("B", 1, "named", "map", None, [Field("x", 0, opt(U8)), Field("y", 1, opt(STRING)), Field("z", 7, opt(U8), tag=1)]),
                    ("C", 2, "tuple", None, None, [Field("x", 0, U8), Field("y", 1, opt(U64))])]
+    out.append(finish(td))
+    # nil-capable field types that are not spelled `Option<..>` in the definition:
+    # type parameters instantiated with Option, and type aliases of Option
+    for name, enc, shape in [("GenMap", "map", "named"), ("GenArr", "array", "named"), ("GenTup", None, "tuple")]:
+        td = TypeDef(name)
+        td.encoding, td.shape = enc, shape
+        td.fields = [Field("id", 0, U8), Field("val", 1, opt(U16), decl="P0"), Field("mid", 2, opt(STRING), decl="P1"), Field("last", 4, alias(opt(I32)))]
+        td.params = [("P0", "Option<u16>"), ("P1", "Option<String>")]
+        out.append(finish(td))
+    td = TypeDef("GenEnum")
+    td.kind = "enum"
+    td.variants = [("A", 0, "named", None, None, [Field("id", 0, U8), Field("val", 1, opt(U16), decl="P0")]), ("B", 1, "tuple", "map", None, [Field("x", 0, U8), Field("y", 1, opt(U16), decl="P0"), Field("z", 3, alias(opt(vec(U8))))]), ("C", 2, "unit", None, None, [])]
+    td.params = [("P0", "Option<u16>")]
+    out.append(finish(td))
+    td = TypeDef("GenPlain")
+    td.encoding = "map"
+    td.fields = [Field("a", 0, U32, decl="P0"), Field("b", 1, alias(opt(BOOL)), tag=3), Field("c", 5, alias(vec(U8)))]
+    td.params = [("P0", "u32")]
     out.append(finish(td))
     # borrowing Cows under #[b], with and without the bytes codec
     td = TypeDef("CowBorrow")
@@ -770,6 +836,7 @@ def main():
     for td in all_types:
         src.append(emit_type(td))
         src.append("")
+    src[6:6] = ["pub type %s = %s;" % kv for kv in sorted(ALIASES.items())] + [""]
     registry = "\n".join('    r.insert("%s", schema_%s());' % (td.name, td.name) for td in all_types)
     chain_names = set()
     for vs, es, ctl in chains:
